@@ -582,6 +582,17 @@ func judgeErrors(c *Case, en *entry, other *entry) (vs []evid.Violation) {
 		// a function or event with its own selector sits in the same ABI: it is not an error definition
 		a = append(abi.ABI{other.e}, a...)
 	}
+	// the ABI handed over is a SUB-SLICE of a longer array the caller owns (spare capacity holding two
+	// more entries): a lookup must not write behind the end of the slice it was given
+	sentinel := &abi.Entry{Type: abi.Function, Name: "verifSentinelBehindTheSlice"}
+	backing := append(append(abi.ABI{}, a...), sentinel, sentinel)
+	n := len(a)
+	a = backing[:n]
+	defer func() {
+		if backing[n] != sentinel || backing[n+1] != sentinel {
+			vs = append(vs, evid.V("caller-memory-unmodified", "a lookup on abi[:%d] overwrote the caller's entries behind the slice (entry %d is now %v)", n, n, backing[n]))
+		}
+	}()
 	enc, _, err := abiref.Enc(en.ty, en.args)
 	if err != nil {
 		return append(vs, evid.V("harness", "%v", err))
